@@ -90,7 +90,7 @@ open Lean in
     overdensities (opaque local of the constructor), table entry at a tabulated one -/
 macro "T08coef" s:str : term =>
   `(cond .gt (v "flag:delta_halo not in self.delta_virs") 0.5 (v $(Syntax.mkStrLit ("loc:Tinker08." ++ s.getString ++ "_0")))
-      (v $(Syntax.mkStrLit ("py:self.params['" ++ s.getString ++ "_%s' % int(delta_halo)]"))))
+      (v $(Syntax.mkStrLit ("py:self.params[f'" ++ s.getString ++ "_{int(delta_halo)}']"))))
 
 /-- Tinker08: A((σ/b)^−a + 1) exp(−c/σ²), A = A₀(1+z)^−A_exp, a = a₀(1+z)^−a_exp, b = b₀(1+z)^−α,
     α = 10^−(0.75/log₁₀(Δ/75))^1.2 -/
@@ -104,7 +104,7 @@ def Tinker08 : E :=
 open Lean in
 macro "T10coef" s:str : term =>
   `(cond .gt (v "flag:int(delta_halo) not in self.delta_virs") 0.5 (v $(Syntax.mkStrLit ("loc:Tinker10." ++ s.getString ++ "_0")))
-      (v $(Syntax.mkStrLit ("py:self.params['" ++ s.getString ++ "_%s' % int(delta_halo)]"))))
+      (v $(Syntax.mkStrLit ("py:self.params[f'" ++ s.getString ++ "_{int(delta_halo)}']"))))
 def T10z : E := 1 + emin (v "z") (p "max_z")
 def T10β : E := T10coef "beta" * T10z ^ᵣ p "beta_exp"
 def T10φ : E := T10coef "phi" * T10z ^ᵣ p "phi_exp"
@@ -116,7 +116,7 @@ def T10normFormula : E :=
        ((2 : E) ^ᵣ T10φ * T10β ^ᵣ (2 * T10φ) * Γ (T10η + 0.5) + T10γ ^ᵣ T10φ * Γ (0.5 + T10η - T10φ)))
 def T10norm : E :=
   cond .gt (v "flag:int(self.delta_halo) in self.delta_virs") 0.5
-    (cond .eq (v "z") 0 (v "py:self.params['alpha_%s' % int(self.delta_halo)]") T10normFormula) T10normFormula
+    (cond .eq (v "z") 0 (v "py:self.params[f'alpha_{int(self.delta_halo)}']") T10normFormula) T10normFormula
 /-- Tinker10: (1 + (βν)^−2φ) ν^2η exp(−γν²/2) × normalisation × ν -/
 def Tinker10 : E :=
   (1 + (T10β * ν) ^ᵣ (-2 * T10φ)) * ν ^ᵣ (2 * T10η) * exp (-T10γ * ν ^ 2 / 2) * T10norm * ν
